@@ -905,4 +905,15 @@ theorem parseLoop_ls (s : Src) (fuel : Nat) : ∀ (n : Nat) (body : List (Entry 
       · cases h; exact hsn _ _ hbody (hc _)
       · cases h; exact hbody
 
+/-- **The parser produces line-split trees.**  For every byte source: every text element of every
+pattern (message/term values, attribute values, variant values, at any nesting depth) of the tree
+returned by `parse` is non-empty, contains `\n` only as its last byte, and contains no `\r\n`. -/
+theorem parse_lineSplit (s : Src) (t : Resource Span) (errs : List PErr) (h : parse s = .done (t, errs)) :
+    LineSplit (resolve s t) := by
+  unfold parse at h
+  intro e he
+  simp only [resolve, List.mem_map] at he
+  obtain ⟨e', he', rfl⟩ := he
+  exact parseLoop_ls s _ _ [] [] none 0 _ t errs (by simp) h e' he'
+
 end FluentProofs.Ser
